@@ -774,7 +774,7 @@ pub fn gen_case(stream: &[u32], opts: GenOpts) -> Case {
     let holder = g.src.chance(80) && !friendly_seq;
     let dflt = g.gen_value(subject, 0);
     let excluded = g.excluded_nested_bmp;
-    let decoys = if g.src.chance(20) { 1 + g.src.pick(3) as u8 } else { 0 };
+    let decoys = if g.src.chance(25) { 1 + g.src.pick(7) as u8 } else { 0 };
     Case { types: g.types, subject, alias_depth, aux: g.aux, v0, chain, holder, dflt, excluded_nested_bmp: excluded, decoys }
 }
 
@@ -804,6 +804,30 @@ fn decoy_text(c: &Case) -> String {
                 }
                 K::Bits { named } if !named.is_empty() => {
                     s.push_str(&format!("{prefix}{i} ::= BIT STRING {{ {} }}\n", named.iter().map(|(n, p)| format!("{n}({})", p + 3)).collect::<Vec<_>>().join(", ")));
+                }
+                _ => {}
+            }
+        }
+    }
+    // value assignments spelled like the first named number / enumeral of the case's types:
+    // inside the value notation of such a type the name denotes the named number (X.680 19.13)
+    if c.decoys & 4 != 0 {
+        let mut seen = std::collections::BTreeSet::new();
+        for t in c.types.iter() {
+            if t.inline {
+                continue;
+            }
+            match &t.k {
+                K::Int { named, .. } if !named.is_empty() => {
+                    let (n, v) = &named[0];
+                    if seen.insert(n.clone()) {
+                        s.push_str(&format!("{n} INTEGER ::= {}\n", v.wrapping_add(100)));
+                    }
+                }
+                K::Enum { root, .. } if root.len() >= 2 => {
+                    if seen.insert(root[0].0.clone()) {
+                        s.push_str(&format!("{} {} ::= {}\n", root[0].0, t.name, root[1].0));
+                    }
                 }
                 _ => {}
             }
@@ -1458,7 +1482,11 @@ fn shrink_case(host: &Host, case: &Case, key: &str, finding: Option<&'static str
         }
         if best.decoys != 0 {
             cands.push(Case { decoys: 0, ..best.clone() });
-            if best.decoys == 3 {
+            if best.decoys & 4 != 0 {
+                cands.push(Case { decoys: 4, ..best.clone() });
+                cands.push(Case { decoys: best.decoys & 3, ..best.clone() });
+            }
+            if best.decoys & 3 == 3 {
                 cands.push(Case { decoys: 1, ..best.clone() });
                 cands.push(Case { decoys: 2, ..best.clone() });
             }
